@@ -13,7 +13,7 @@ EXPLANATION = (
     "message is the Encrypted payload of subject(self), the rebuilt node is node-constructor(decoded, the node's own assertions). "
     "C08.4: no accept exit in the arms for an already encrypted / elided envelope and the node arm's accept is dominated by "
     "!is_encrypted(subject). C08.5: encrypt = encrypt_subject(wrap(self)), decrypt = unwrap_envelope(decrypt_subject(self)?). "
-    "Does not decide that a wrong key or tampered ciphertext/nonce/tag/AAD makes the AEAD fail (dependency).")
+    "C08.6: the Encrypt action reaches every position - the obscuring descent rebuilds each case over rec(child, target, mode, action) with the action unchanged and has no exit that is neither self, a same-case rebuild nor an action sink. Does not decide that a wrong key or tampered ciphertext/nonce/tag/AAD makes the AEAD fail (dependency).")
 TRUSTED = ['SymmetricKey::decrypt authenticates ciphertext, nonce, tag and AAD', 'EncryptedMessage::opt_digest reads the digest stored as AAD']
 FLOORS = {'C08.1': 6, 'C08.2': 2, 'C08.4': 2, 'C08.5': 2}
 
@@ -22,6 +22,8 @@ def check(ctx):
     F = ctx.F
     obscure.check_sinks(ctx, 'C08.1', want=('encrypt',))
     obscure.check_obscure_region(ctx, 'C08.1/action')
+    # the Encrypt action must reach every position: the descent rebuilds each case over rec(child, target, mode, action) unchanged
+    obscure.check_rebuild(ctx, 'C08.6', 'C08.6/kinds')
     P1, P2 = ('param', 1), ('param', 2)
     b = F.method1('Envelope', 'decrypt_subject')
     if b is None:
